@@ -105,6 +105,13 @@ func (env *SpecEnv) lookupPkgName(name string) *types.Package {
 			return p
 		}
 	}
+	if m, ok := e.specs.Imports[rp]; ok {
+		if path, ok := m[name]; ok {
+			if p, ok := e.allTypes[path]; ok {
+				return p
+			}
+		}
+	}
 	if p, ok := e.globalImports[name]; ok {
 		return p
 	}
@@ -685,6 +692,45 @@ func (env *SpecEnv) evalCall(st, old *State, x *ast.CallExpr) Val {
 			return Val{Forall([]*Term{q}, body.T), boolT}
 		}
 		return Val{Exists([]*Term{q}, body.T), boolT}
+	case "mapcomp":
+		// mapcomp(x, T, expr): the total map x -> expr (definitional)
+		id, ok := x.Args[0].(*ast.Ident)
+		if !ok || len(x.Args) != 3 {
+			env.errf("mapcomp(x, T, expr) expected")
+			return Val{u.fresh("specerr", SBool), boolT}
+		}
+		t := env.resolveType(x.Args[1])
+		if t == nil {
+			return Val{u.fresh("specerr", SBool), boolT}
+		}
+		q := env.freshQVar(id.Name, tm.SortOf(t))
+		saved, had := env.binds[id.Name]
+		env.binds[id.Name] = Val{q, t}
+		body := env.eval(st, old, x.Args[2])
+		if had {
+			env.binds[id.Name] = saved
+		} else {
+			delete(env.binds, id.Name)
+		}
+		arr := u.fresh("mapcomp", ArraySort(q.Sort, body.T.Sort))
+		st.assumeT(Forall([]*Term{q}, Eq(Select(arr, q), body.T), []*Term{Select(arr, q)}))
+		var mt types.Type
+		if body.Ty != nil {
+			m := types.NewMap(t, body.Ty)
+			ghostMapTypes[m] = true
+			mt = m
+		}
+		return Val{arr, mt}
+	case "ʃsortpi", "ʃsortinv":
+		if u.lastSortPi == "" {
+			env.errf("%s used before a sort.Sort call", name)
+			return Val{u.fresh("specerr", SInt), types.Typ[types.Int]}
+		}
+		fn := u.lastSortPi
+		if name == "ʃsortinv" {
+			fn = u.lastSortInv
+		}
+		return Val{App(fn, SInt, arg(0).T), types.Typ[types.Int]}
 	case "typeis":
 		v := arg(0)
 		t := env.resolveType(x.Args[1])
@@ -1013,6 +1059,11 @@ func (c *ExecCtx) newEnv(binds map[string]Val, pos token.Pos) *SpecEnv {
 	root := c
 	for k, v := range root.binds {
 		b[k] = v
+	}
+	for _, lb := range c.loopBinds {
+		for k, v := range lb {
+			b[k] = v
+		}
 	}
 	for k, v := range binds {
 		b[k] = v
